@@ -25,6 +25,12 @@ func sparkFunction(c *cli.Context) error {
 		sortCols   = c.String("sort-cols")
 	)
 
+	if c.String(helpers.CSVFlag.Name) != "" {
+		// The csv export is the whole aggregate, not the displayed window:
+		// keep every column (the renderer limits the display to numCols itself)
+		noTruncate = true
+	}
+
 	counter := aggregation.NewTable(delim)
 
 	batcher := helpers.BuildBatcherFromArguments(c)
